@@ -23,7 +23,7 @@ RULE = ('one evaluation = one simulated run of two real daemons followed by the 
         'length, DH group, PFS group, rekey generations, leading-zero secret seen)')
 COMPONENTS = {'real': ['crypto.py (Prf, prf+, Cipher, Integrity, MODPDH, ECDH)', 'ikesa.py (generate_ike_sa_key_material, '
                        'generate_child_sa_key_material, rekey derivation)', 'message.py', 'xfrm.py'],
-              'stub': ['reference key schedule (sim/refike.py: hmac/hashlib, pow() over recomputed RFC 3526 primes, library EC point '
+              'stub': ['active reference responder sim/refpeer.py in place of the second daemon (batch refpeer)', 'reference key schedule (sim/refike.py: hmac/hashlib, pow() over recomputed RFC 3526 primes, library EC point '
                        'multiplication)', 'DH scalars from the seam', 'kernel model']}
 ASSUMPTIONS = ['in the main batch the two daemons run the same code and the symmetry is broken only by the passive reference (wiretap); in the '
                'refpeer batch (30 %) the other end is the active reference responder sim/refpeer.py, which derives every key itself from the RFC',
